@@ -610,8 +610,10 @@ class Prop:
         F = (a, b)
         cases = []
         kinds = [('gr_only', (a, b), None), ('gr_llgr', (a, b), ((a, 1), (b, 2))), ('gr_llgr_one', (a, b), ((a, 1),)), ('llgr_only', None, ((a, 1), (b, 2)))]
+        # restart time 0 is a legal value of the 12-bit field: the restart timer then runs out at once
+        kinds += [('gr_only_restart_time_0', (a, b), None), ('gr_llgr_restart_time_0', (a, b), ((a, 1), (b, 2)))]
         for kname, grf, ll in kinds:
-            gr = None if grf is None else (grf, 1, False)
+            gr = None if grf is None else (grf, 0 if kname.endswith('restart_time_0') else 1, False)
             up = ('up', F, gr, ll, default_caps(gr, ll))
             body = [up, ('ann', a, 0, False, False), ('ann', b, 1, False, False), ('eor', a), ('eor', b), ('down', 0)]
             expire = [('rtimer',), ('ltimer', a), ('ltimer', b)]
